@@ -1,0 +1,47 @@
+//go:build verif
+
+package proto
+
+// Contracts for /verif (gvc). Comment-only file. Generated protobuf getters: read-only;
+// collection getters return the field itself (T-pb of DESIGN.md §4: verified here, not assumed).
+
+//@ prop C15
+
+//@ func (*RetentionPolicyInfo).GetName
+//@   assigns nothing
+//@ func (*RetentionPolicyInfo).GetDuration
+//@   assigns nothing
+//@ func (*RetentionPolicyInfo).GetShardGroupDuration
+//@   assigns nothing
+//@ func (*RetentionPolicyInfo).GetReplicaN
+//@   assigns nothing
+//@ func (*RetentionPolicyInfo).GetMeasurements
+//@   ensures m != nil ==> result == m.Measurements
+//@   assigns nothing
+//@ func (*RetentionPolicyInfo).GetMstVersions
+//@   ensures m != nil ==> result == m.MstVersions
+//@   assigns nothing
+//@ func (*RetentionPolicyInfo).GetShardGroups
+//@   ensures m != nil ==> result == m.ShardGroups
+//@   assigns nothing
+//@ func (*RetentionPolicyInfo).GetSubscriptions
+//@   ensures m != nil ==> result == m.Subscriptions
+//@   assigns nothing
+//@ func (*RetentionPolicyInfo).GetMarkDeleted
+//@   assigns nothing
+//@ func (*RetentionPolicyInfo).GetHotDuration
+//@   assigns nothing
+//@ func (*RetentionPolicyInfo).GetWarmDuration
+//@   assigns nothing
+//@ func (*RetentionPolicyInfo).GetIndexGroupDuration
+//@   assigns nothing
+//@ func (*RetentionPolicyInfo).GetIndexGroups
+//@   ensures m != nil ==> result == m.IndexGroups
+//@   assigns nothing
+//@ func (*RetentionPolicyInfo).GetDownSamplePolicyInfo
+//@   ensures m != nil ==> result == m.DownSamplePolicyInfo
+//@   assigns nothing
+//@ func (*RetentionPolicyInfo).GetShardMergeDuration
+//@   assigns nothing
+//@ func (*RetentionPolicyInfo).GetIndexColdDuration
+//@   assigns nothing
